@@ -158,25 +158,32 @@ func (s *SigBlob) VerifyPages(r io.Reader) error {
 		}
 		return nil
 	}
-	pageSize := int64(1 << dir.Header.PageSizeLog2)
-	page := make([]byte, pageSize)
+	if dir.Header.PageSizeLog2 >= 63 {
+		return fmt.Errorf("unsupported page size 2^%d", dir.Header.PageSizeLog2)
+	}
+	pageSize := int64(1) << dir.Header.PageSizeLog2
+	// stream each page into the hash instead of holding it in memory, since
+	// the page size comes from the signature and is not limited by the file
+	buf := make([]byte, 32*1024)
 	h := dir.HashFunc.New()
 	for i, expected := range dir.CodeHashes {
+		thisPage := pageSize
 		if remaining <= 0 {
 			return errors.New("not enough hash slots to cover indicated size")
 		} else if remaining < pageSize {
-			page = page[:remaining]
-		}
-		if _, err := io.ReadFull(r, page); err != nil {
-			return err
+			thisPage = remaining
 		}
 		h.Reset()
-		h.Write(page)
+		if n, err := io.CopyBuffer(h, io.LimitReader(r, thisPage), buf); err != nil {
+			return err
+		} else if n != thisPage {
+			return io.ErrUnexpectedEOF
+		}
 		computed := h.Sum(nil)
 		if !hmac.Equal(computed, expected) {
 			return fmt.Errorf("digest mismatch: page %d: expected %x, got %x", i, expected, computed)
 		}
-		remaining -= int64(len(page))
+		remaining -= thisPage
 	}
 	return nil
 }
